@@ -39,7 +39,7 @@ CHECKS["C01"] = ("bfs", "model_checking",
     "(narrow, wide, coloured, underlined blanks, four images incl. equal content in a different allocation and a two-row one, two tiles of one sprite sheet, two glyphs, one of them under two faces and once inside a frame, non-ASCII white space, an image under two faces, reverse-video blanks of two colours; "
     "a glyph must show as the image its own rasterisation gives for that face and cell size) and continues to a fixpoint of the state graph; "
     "after every frame the screen must equal what a fresh renderer paints on a blank screen, the from-scratch screen must equal the direct reading of the surface when nothing overlaps, "
-    "and no command may address a cell outside the grid or print in the pending-wrap column.",
+    "and no command may address a cell outside the grid or print in the pending-wrap column. The library's own render loop is driven too: every program of up to 3 handler calls (surface x Wait / WaitNoFrame / Sleep(0) x next event timeout / wake / resize / more than 32 frames pending) through Terminal::run_render on a scripted terminal (0.6 M programs); after every rendered frame the screen must equal a from-scratch repaint.",
     "Trusts the VT semantics of model/screen.rs (ECH = background only, wide-character halves) and unicode-width; image z-order is not modelled; grids beyond the listed sizes are not explored.",
     "DESIGN.md §C01")
 
@@ -49,14 +49,14 @@ CHECKS["C16"] = ("bfs + devdfs (worker subprocesses)", "model_checking",
     "len() must equal the readable bytes, bytes come out in order exactly once, and a drop may remove only whole flush-delimited chunks that have not started; a second pass over one-byte and 64 KiB / 70 001-byte writes and consumes to depth 7 (9) and (read_to_end in the alphabet; after every history a probe continuation - 3 bytes, flush, 2 bytes, drain - must deliver everything pending plus the five bytes, and its chunk lengths are part of the state key) and a third over a 3.3 MB chunk with consumes of 1 MiB + 1 and 2.2 MB to depth 4 (5) cover buffer re-allocation and block-release thresholds. "
     "(b) The real UnixTerminal runs scripted write/execute/flush/poll/frames_drop sessions on a real pseudo-terminal while hook H2 lets the harness answer every "
     "select/write/read and own the clock; ALL schedules with at most 2 (3; short sessions 3 (4), in the quick tier not those pushing more than 64 KiB) departures from the cooperative answer (short write of 1 / half / len-1 bytes, EAGAIN, EINTR, "
-    "withheld or delayed writability) are executed to completion, for every crash point of every session (two sessions with the kitty image handler active put an image command inside a frame that is dropped); the bytes accepted by the tty must be the written chunks in order, whole, "
+    "withheld or delayed writability) are executed to completion, for every crash point of every session (sessions with the kitty image handler active put an image command inside a frame that is dropped and inside an execute_many batch; with the size tracked by escape sequences a window-size signal may arrive at any point - the terminal's own size request may stand between chunks only); the bytes accepted by the tty must be the written chunks in order, whole, "
     "with only not-yet-started chunks missing after frames_drop.",
     "Kernel model (write accepts a prefix, select never invents readiness); encoder output taken as given (C05); sessions and payload sizes are the listed ones; more deviations than the bound are not explored.",
     "DESIGN.md §C16")
 CHECKS["C17"] = ("devdfs (worker subprocesses)", "fault_enumeration",
     "deviation-bounded enumeration of environment events (wake, SIGWINCH, SIGTERM, input, hang-up) at every system-call boundary and of every crash point, real UnixTerminal on a pty",
     "Same explorer as C16(b). In addition a waker call, SIGWINCH, SIGTERM, the next input bytes or a hang-up may land before ANY select/write/read or between the signal, waker and input "
-    "phases of the poll loop (hook points), each costing one deviation; polls use timeouts 0, 5 ms (virtual clock) and infinite; bursts of 127 / 128 / 256 / 1024 wake requests before one poll; a termination and a window-size signal pending together in both orders; three wake requests at every triple of points; three keys typed before position() with another one arriving inside it; two terminal objects one after the other on one pty device number (the first hung up before its release, the second with other initial line settings; real system calls, in a child process); eleven placements of the tty descriptor relative to the descriptors the terminal allocates itself (as given, moved to 40 with 0..6 or all lower numbers free, moved to 200 and 700; real system calls: typed keys must arrive, output and the closing sequence must reach the peer); the terminal is released after every prefix of every session. "
+    "phases of the poll loop (hook points), each costing one deviation; polls use timeouts 0, 5 ms (virtual clock) and infinite; bursts of 127 / 128 / 256 / 1024 wake requests before one poll; a termination and a window-size signal pending together in both orders; three wake requests at every triple of points; three keys typed before position() with another one arriving inside it; two terminal objects one after the other on one pty device number (the first hung up before its release, the second with other initial line settings; real system calls, in a child process); arrival order under the real kernel (256 / 40 one-byte frames pending, a key typed, one poll, SIGWINCH: key before resize); a terminal that answers position() late while a wake is pending; eleven placements of the tty descriptor relative to the descriptors the terminal allocates itself (as given, moved to 40 with 0..6 or all lower numbers free, moved to 200 and 700; real system calls: typed keys must arrive, output and the closing sequence must reach the peer); the terminal is released after every prefix of every session. "
     "Oracle: a wake is followed by a Wake event from the current or a later poll and never blocks a poll for ever; SIGWINCH yields a Resize; SIGTERM yields the quit error; input bytes come out "
     "as the events a reference decoder gives, in order; no quit without cause; after release tcgetattr equals the saved settings and, if the tty kept accepting writes, the closing sequence "
     "(cursor visible, mouse modes off) was delivered. Every failing schedule is replayed twice and must fail identically.",
@@ -66,7 +66,7 @@ CHECKS["C17"] = ("devdfs (worker subprocesses)", "fault_enumeration",
 CHECKS["C02"] = ("sweep (worker subprocesses)", "exploration",
     "exhaustive enumeration of byte strings, UTF-8 lattice, hostile-token lattice and edit neighbourhoods in worker subprocesses",
     "Every byte string up to length 2 (3) over all 256 bytes for the three decoders, the UTF-8 boundary lattice (every lead byte x boundary continuation bytes) and every Unicode scalar value, "
-    "36 sequence templates x a 16-value hostile number lattice for every numeric field plus ~120 fixed malformed tokens and 384 OSC colour replies whose value is a short lead followed by a multi-byte character or a stray continuation byte, 16 sequence shapes with one numeric field taking EVERY value 0..=70 000 (every value up to 0x110010; the swept number is judged as a decoded field where the event carries it), 600 giant sequences (string introducers followed by 64 KiB .. 1.1 MB of one byte and five tails), and all single (double) byte edits of 130 base tokens are fed whole, "
+    "36 sequence templates x a 16-value hostile number lattice for every numeric field plus ~120 fixed malformed tokens and 384 OSC colour replies whose value is a short lead followed by a multi-byte character or a stray continuation byte, 16 sequence shapes with one numeric field taking EVERY value 0..=70 000 (every value up to 0x110010; the swept number is judged as a decoded field where the event carries it), 600 giant sequences (string introducers followed by 64 KiB .. 1.1 MB of one byte and five tails), and all single (double) byte edits of 130 base tokens are fed whole, (the fixed and base tokens once more under a tracing subscriber that evaluates every log line; every partition of up to three parts also as one reader handing out pieces to decode_into) "
     "at every cut, byte by byte and with empty reads (all partitions up to length 5). Oracle: no panic, no abort or stall of the worker process (attributed to the exact input through a memory-mapped progress record "
     "and confirmed in a fresh process), decode returns None once input is exhausted and keeps doing so, every char is a scalar value, raw events are non-empty, and every numeric field of a recognised event is the exact "
     "transmitted value, the type's maximum, or the sequence is unrecognised. Strings over the representative alphabet up to length 4-5 under all partitions run through the same driver in C03.",
@@ -77,7 +77,7 @@ CHECKS["C11"] = ("bfs / history enumeration", "model_checking",
     "exhaustive enumeration of draw/erase/response histories on the real KittyImageHandler against an independent kitty-graphics parser and reference terminal image store",
     "All histories of depth 3 (no de-duplication; 1.19 M) and, de-duplicated by (transmitted ids, reference terminal state), depth 4 (6) over a 120-operation alphabet (8 images incl. 1x1, cropped/strided view, a crop taken after its parent was hashed and drawn, equal pixels in another allocation, "
     "empty, exactly-4096-byte payload, three-chunk payload; 4 positions incl. the origin and (65535,65535); draw, erase(Some), erase(None), OK and error responses for known and unknown ids, unrelated events) are executed on the real handler, "
-    "plus every history of 2 (3) operations over a second set of 11 images that differ in memory layout (row-major, transposed, windows with gaps, re-allocated copies; ids must be injective on content), volume histories (a 134 MB image drawn twice; thorough: 12 x 16 MiB and 40 x 4 MiB images twice), sinks that take 1 / 7 bytes per call, a first draw whose sink fails after 0 / 1 / 20 / 60 / 4300 bytes followed by a draw into a working sink, the .quiet() handler, 1 024 single-pixel images over every channel value and thousands of sizes across the chunk boundaries. The emitted bytes are parsed by an independent APC/kitty parser and fed to a reference terminal store; "
+    "plus every history of 2 (3) operations over a second set of 11 images that differ in memory layout (row-major, transposed, windows with gaps, re-allocated copies; ids must be injective on content), volume histories (a 134 MB image drawn twice; thorough: 12 x 16 MiB and 40 x 4 MiB images twice), sinks that take 1 / 7 bytes per call, a first draw whose sink fails after 0 / 1 / 20 / 60 / 4300 bytes followed by a draw into a working sink, the .quiet() handler, histories through the library's `impl ImageHandler for Box<T>` (the way a terminal holds its handler; de-duplicated runs carry a probe continuation - every image drawn once more - in the state key), 1 024 single-pixel images over every channel value and thousands of sizes across the chunk boundaries. The emitted bytes are parsed by an independent APC/kitty parser and fed to a reference terminal store; "
     "oracle: valid commands, s/v = image size, f=32, chunks <= 4096 and multiples of 4 with correct m flags, payload base64-decodes to the exact RGBA pixels row-major, at most one transmission per content (plus one per evicting error), "
     "every put names a transmitted image, erase(img, Some(pos)) removes exactly the placement draw(img,pos) created.",
     "Trusts the reading of the kitty graphics protocol in model/kitty.rs (p=0 = unspecified); id hash collisions are out of reach of enumeration.",
@@ -85,7 +85,7 @@ CHECKS["C11"] = ("bfs / history enumeration", "model_checking",
 CHECKS["C12"] = ("sweep", "exploration",
     "exhaustive small-image sweep decoded by an independent sixel interpreter",
     "All colourings of 6x1 and 6x2 images over 3 colours and 6x3 over 2 (thorough: 6x2 over 4, 6x4, 12x1, 12x2), all constant-column single-band images up to width 12 (16), heights {6,7,11,12,13} x widths 1..5, >256 colour gradients, "
-    "alpha {0,128,255} over three backgrounds, 1 260 crops, every channel value, runs of fully transparent black pixels, images stored column-major (transposed views, plain and cropped), erase(Some) / erase(None) between draws, repeated draws on shared handlers (incl. row-major / column-major twins over one pixel sequence and crops taken after the parent was drawn) and into sinks that take 1 / 7 bytes per call: 0.82 M (51.8 M) images. The emitted bytes are decoded by an independent sixel interpreter (raster attributes, colour registers, "
+    "alpha {0,128,255} over three backgrounds, 1 260 crops, every channel value, runs of fully transparent black pixels, images stored column-major (transposed views, plain and cropped), erase(Some) / erase(None) and four events passed to handle() between draws, a buffer repainted in place between two draws, repeated draws on shared handlers (incl. row-major / column-major twins over one pixel sequence and crops taken after the parent was drawn) and into sinks that take 1 / 7 bytes per call: 0.82 M (51.8 M) images. The emitted bytes are decoded by an independent sixel interpreter (raster attributes, colour registers, "
     "repeat, $, -) into an unpainted-initialised raster; oracle: one well-formed sequence, declared size = width x 6*floor(h/6), every pixel painted exactly inside the raster, only defined registers (<= 256), pixel-exact equality at 0-100 "
     "resolution when the colours fit and the image is not subsampled, second draw byte-identical.",
     "Trusts the sixel reading of model/sixel.rs; partial alpha is only checked to lie between pixel and background; images above the subsampling threshold are checked for structure only.",
@@ -93,7 +93,7 @@ CHECKS["C12"] = ("sweep", "exploration",
 CHECKS["C14"] = ("bfs + sweep", "model_checking",
     "closed BFS over the encoder's carry state + exhaustive partition / reader-schedule enumeration against an RFC 4648 reference codec",
     "Encoder: the carry-state graph (65 793 states x 256 bytes) is closed on the real encoder; all 2^24 three-byte groups and all tails; every partition into writes for n <= 12 (18), with flushes, one-byte sinks and empty writes, "
-    "lengths 0..=200 under all <= 2-cut partitions. Decoder: lengths 0..=200 x 18 cyclic reader schedules (six of them with interrupted reads) x 21 destination patterns (buffer sizes, and read_to_end / read_vectored from the start and after partial reads), lengths up to 65 537 through reads and destinations up to 100 000, EVERY composition of the text into reads for <= 16 (24) characters, all 2^24 groups; "
+    "lengths 0..=200 under all <= 2-cut partitions; every partition also as ONE write_vectored call. Decoder: lengths 0..=200 x 18 cyclic reader schedules (six of them with interrupted reads) x 21 destination patterns (buffer sizes, and read_to_end / read_vectored from the start and after partial reads), lengths up to 65 537 through reads and destinations up to 100 000, UTF-8 payloads of 0..=260 bytes in four phases read with read_to_string, EVERY composition of the text into reads for <= 16 (24) characters, all 2^24 groups; "
     "every length not divisible by four must error; ~1.2 M garbage inputs (all two-byte, 20^4 four-character, 64-byte buffer boundary sweeps) must not panic. Reference: RFC 4648 codec checked against the RFC vectors and CPython.",
     "Readers/writers that fail are out of scope; invalid characters only need to avoid a panic (statement silent on their decoding).",
     "DESIGN.md §C14")
@@ -118,7 +118,7 @@ CHECKS["C20"] = ("sweep", "exploration",
     "complete sweep of all 2^24 colours through the real encoder against brute force over the xterm palette",
     "All 2^24 opaque colours are encoded with the real TTYEncoder as Face.fg under EightBit, Gray and TrueColor (quick; bg and underline colour on the complete 65^3 lattice), and at all five call sites (Face.fg/bg, FaceModify.fg/bg/underline_color) in thorough; "
     "the emitted SGR is parsed independently. EightBit: index in 16..=255 whose distance (library's LinColor metric, palette from its sRGB xterm definition) is within 1e-5 of the brute-force minimum over all 240 entries; Gray: nearest of the four levels by luma and monotone over the sorted sweep; "
-    "TrueColor: exact r;g;b. Two-emission histories on one encoder (16^3 colour lattice x {same colour, neighbour, half-transparent twin} x 25 role pairs x 3 depths) and both colours in one Face / FaceModify command: each emission is judged like a fresh encoder's. Terminal objects opened on ptys under seven environments (TERM dumb / linux / xterm, COLORTERM unset / truecolor / 24bit, emulator answering the face query) execute 125 colours x 5 roles; every sequence is judged by the oracle of the depth the object reports.",
+    "TrueColor: exact r;g;b. Two-emission histories on one encoder (16^3 colour lattice x {same colour, neighbour, half-transparent twin} x 25 role pairs x 3 depths) and both colours in one Face / FaceModify command: each emission is judged like a fresh encoder's; so is the first command sent once more as a third emission, and an emission that follows one whose sink failed after two bytes. Terminal objects opened on ptys under seven environments (TERM dumb / linux / xterm, COLORTERM unset / truecolor / 24bit, emulator answering the face query) execute 125 colours x 5 roles; every sequence is judged by the oracle of the depth the object reports.",
     "Trusts LinColor::distance / From<RGBA> as the metric the statement refers to; ties within 1e-5 (table rounding) are not judged.",
     "DESIGN.md §C20")
 
@@ -126,7 +126,7 @@ CHECKS["C04"] = ("sweep", "exploration",
     "exhaustive enumeration of every sequence family x parameter lattice from an independent protocol printer, plus all pairs/triples of tokens under all <= 2-cut partitions",
     "An independent printer (model/keytable.rs: golden key table + per-family encoders written from xterm ctlseqs / kitty / fixterms) emits every legacy key, pastes and kitty messages of 255 B .. 1.1 MB read whole and in reads of 4 KiB / 64 KiB / 1 MB, parameters padded with zeros to 2..40 digits, SGR mouse report (all 256 button codes x m/M x coordinate lattice incl. 1 and 65535), "
     "cursor / size / DECRPM / DA1 / OSC 4,10,11 (every 1-4 digit rgb component) / XTGETTCAP / kitty keyboard (EVERY Unicode scalar value x modifier values, every modifier mask) / kitty image / paste / DECRPSS / SGR (both colour forms, multi-colour) report "
-    "and every printable scalar as text: 8.3 M distinct inputs, 26 M (318 M) decodes. 69 representative tokens are concatenated in all ordered pairs (and triples) and fed under every partition with at most two cuts. "
+    "and every printable scalar as text: 8.3 M distinct inputs, 26 M (318 M) decodes. 69 representative tokens are concatenated in all ordered pairs (and triples) and fed under every partition with at most two cuts; for every cut list one read per piece is compared with one reader that hands out the pieces. "
     "The decoded event list must equal the printer's intention exactly, arrive with the last byte, and leave nothing buffered.",
     "The key naming table is taken as specification; ambiguous legacy prefixes are placed only where the statement allows either reading; values between lattice points are not enumerated.",
     "DESIGN.md §C04")
@@ -135,7 +135,7 @@ CHECKS["C05"] = ("sweep", "exploration",
     "All 28 TerminalCommand variants x boundary lattices (positions/counts {0,1,2,9,10,99,65535}, signed moves and scrolls over {MIN,MIN+1,-10,-1,0,1,10,MAX}^2, all DEC modes, palette names and colours, every printable title / capability name up to length 2 (3), "
     "every value 0..=70 000 of each numeric parameter of CursorTo / CursorMove / Scroll / ScrollRegion / EraseChars / KeyboardLevel / Color and every scalar value as Char, titles / names / raw payloads of 31..70 000 bytes, every command after an encode that failed in the writer at every offset, a sink that takes one byte per call, 150 528 (3.05 M) faces = colours x all attribute sets x underline styles, 72 576 face modifications) x 12 configurations (3 colour depths x kitty keyboard x glyphs) are encoded by the real TTYEncoder and parsed by model/ecma48.rs "
     "(byte-level C0/ESC/CSI/OSC/DCS/APC parser + operation decoder written from ECMA-48 / xterm ctlseqs); the operation list must equal the command's denotation with exact parameters, SGR must select exactly the requested rendition from three different "
-    "start renditions, encode never panics; all 2 025 ordered pairs of 45 representative commands in one stream must parse back to the concatenation (self-containedness); colour history: every ordered pair of 24 colours (6 RGB x 4 alpha values) "
+    "start renditions, encode never panics; all 2 209 ordered pairs of 47 representative commands (incl. three keyboard levels) in one stream must parse back to the concatenation (self-containedness); colour history: every ordered pair of 24 colours (6 RGB x 4 alpha values) "
     "in every ordered pair of colour slots under the three depths, as two commands on one encoder and as one command, must convert each colour as a fresh encoder does.",
     "Trusts the interpreter's reading of the standards; which palette entry is chosen at reduced depth is C20; Gray-depth underline colour may be dropped (no SGR form exists).",
     "DESIGN.md §C05")
@@ -143,7 +143,7 @@ CHECKS["C06"] = ("sweep + bfs", "model_checking",
     "complete round-trip sweep encoder->decoder under partitions + explicit-state BFS over SGR histories through the escape-sequence cell writer against a reference SGR state machine",
     "(a) Every FaceModify and Face of the lattice is encoded in true-colour mode and decoded by TTYCommandDecoder under every partition with at most 2 (1 for the large lattices) cuts; every value of each colour channel in each colour slot; all 1.1 M characters except ESC round-trip as Char. "
     "(b) BFS with state = current face of a CellWrite sink behind tty_writer(): 600 operations (sequences of 1-2 tokens from a 24-token SGR alphabet the library claims, each followed by a character whose cell face is observed), "
-    "depth 2 (thorough: to the fixpoint, 1 600 states, 960 k transitions), the last sequence written under every <= 2-cut partition and byte by byte, and with a write boundary inside the text that precedes it; reference: model/sgr.rs (each attribute and colour set/cleared independently, later parameters win, 0 resets).",
+    "depth 2 (thorough: to the fixpoint, 1 600 states, 960 k transitions), the last sequence written under every <= 2-cut partition and byte by byte, and with a write boundary inside the text that precedes it; reference: model/sgr.rs (each attribute and colour set/cleared independently, later parameters win, 0 resets). Every history also into a target that holds 0 / 1 cells and is rewound before one more character is written (the writer has seen every sequence). (c) Encoder histories: 7 x 7 face changes on one encoder, the first into a sink failing after every number of bytes, the second read back.",
     "SGR 21 and codes the library does not claim are outside the alphabet; underline colour has no slot in Face.",
     "DESIGN.md §C06")
 
@@ -160,22 +160,22 @@ CHECKS["C09"] = ("sweep", "exploration",
     "exhaustive enumeration of cell sequences x view placements x all write partitions against a sentinel canvas",
     "All sequences of up to 4 (6) cells over 12 kinds (byte level: 8 character kinds and a four-byte character; plus runs of 33 / 70 characters followed by each kind, cut at every position) (narrow, 2-byte, wide, two zero-width, newline, tab, CR, glyph with narrow / wide fallback, images of 1 and 2x2 cells) are written into views of 1..3 x 1..5 cells placed plainly, offset, strided (stride 2) and transposed "
     "inside a 7x10 sentinel canvas, wraps on/off, glyph support on/off, cursor at the origin or in the last column, through put_cell, io::Write on TerminalWriter, utf8_writer(), tty_writer() (SGR between characters) and the Text view (layout + render). "
-    "Oracle: no canvas cell outside the view changes; ALL 2^(n-1) partitions of the bytes into write calls (byte strings up to 12 bytes; <= 2 cuts and byte-by-byte beyond) give the same canvas and no partition-dependent error; the write paths agree with each other; "
+    "The Text view is also rendered into a window of a canvas with its layout rectangle moved to five offsets (nothing outside the window, nothing left of or above the rectangle may change). Oracle: no canvas cell outside the view changes; ALL 2^(n-1) partitions of the bytes into write calls (byte strings up to 12 bytes; <= 2 cuts and byte-by-byte beyond) give the same canvas and no partition-dependent error; the write paths agree with each other; "
     "for Text rendered into the size its own layout reported for max widths 1..6 (and 9, 10, 30 for glyphs whose fallback text holds a tab or a newline) every printable cell (glyph fallback characters without glyph support) appears exactly once in reading order, with wrapping off only cells beyond the right edge are missing; for texts with a glyph or image the same holds for a value that was laid out before under the other glyph capability, another cell size and another width and then cloned (layout history).",
     "Texts containing CR are exempt from 'exactly once'; widths above 6 and longer sequences are not explored.",
     "DESIGN.md §C09")
 CHECKS["C10"] = ("sweep", "exploration",
     "exhaustive enumeration of view trees from explicit sub-grammars x 100 constraints x glyph settings, with probe leaves and a JSON twin",
-    "All trees of up to 4 (5) nodes over a small grammar, all trees of up to 2 nodes over the full parameter lattices (21 leaves incl. text, fills, images, glyph, scroll bars with visible in {0,0.5,1,NaN}, two probe leaves; 768 containers = sizes x alignments x margins incl. usize::MAX and "
-    "offset(i32::MIN); Frame, Tag, Dynamic, Option, Either, trace_layout; 12x56 flex variants with factors incl. NaN, negative, 1e308 and zero children), all containers over composite children and single flexes with 2-3 children: 283 836 (8.05 M) trees x 100 constraints (all min <= max over heights {0,1,2,5} x widths {0,1,3,7}) x glyph support. "
+    "All trees of up to 4 (5) nodes over a small grammar, all trees of up to 2 nodes over the full parameter lattices (21 leaves incl. text, fills, images, glyph, scroll bars with visible in {0,0.5,1,NaN} in the plain and the callback form (the latter also with the position from_counts gives for an empty list), two probe leaves; 768 containers = sizes x alignments x margins incl. usize::MAX and "
+    "offset(i32::MIN); Frame, Tag, Dynamic, Option, Either, trace_layout, JSON `ref` resolved through a ViewCache (cached views wrapped in a recursion guard); 12x56 flex variants with factors incl. NaN, negative, 1e308 and zero children), all containers over composite children and single flexes with 2-3 children: 283 836 (8.05 M) trees x 100 constraints (all min <= max over heights {0,1,2,5} x widths {0,1,3,7}) x glyph support. "
     "Oracle: no panic and no Err; rendering into a sentinel-bordered sub-view leaves the border intact; every bounded view at every depth reports min <= size <= max; probe leaves paint exactly the rectangle obtained by summing positions down the layout tree clipped by every ancestor, "
     "and find_path from every painted cell ends at that probe's node; every tree with a JSON form is rebuilt through ViewDeserializer and must lay out identically.",
-    "Justification / alignment placement semantics are not judged (statement silent); Offscreen, ScrollBarFn and ViewCached are not in the grammar; trees above 5 nodes are not explored.",
+    "Justification / alignment placement semantics are not judged (statement silent); Offscreen is not in the grammar; trees above 5 nodes are not explored.",
     "DESIGN.md §C10")
 CHECKS["C13"] = ("sweep", "exploration",
     "exhaustive small-image and small-palette sweeps against brute-force nearest-colour search",
     "All images of up to 4 (6) pixels over a 12-colour alphabet in every arrangement (crops of a poisoned border included), all multiset images with each colour 0..=2 times (so that the octree pruning loop is reached: it needs >= 9 distinct colours), subsampled periodic images, flat 1 x n images around the counts where a channel sum leaves the exact range of f32 (n = 65 788..65 812, 132 107, 197 381), all images of up to 4 pixels over three RGB values (black among them) x five alpha values, transposed images, images of 65 535 .. 67 584 distinct colours with 70 000 requested, "
-    "x requested sizes {1..10, 256} x dithering on/off x 2 (3) backgrounds: 15.8 M (414 M) quantisations; all palettes of 1-3 colours over a 4^3 lattice x 125 queries and 5 (8) structured palettes of 2..512 colours (xterm-256, clustered, all-equal, duplicates) x ALL 2^24 queries against brute force. "
+    "x requested sizes {1..10, 256} x dithering on/off x 2 (3) backgrounds (the alpha ladder over 5, two of them fully transparent): 15.8 M (414 M) quantisations; all palettes of 1-3 colours over a 4^3 lattice x 125 queries and 5 (8) structured palettes of 2..512 colours (xterm-256, clustered, all-equal, duplicates) (both public lookups, find and find_naive, at and around every entry) x ALL 2^24 queries against brute force. "
     "Oracle: Some for non-empty images, 1 <= |palette| <= max(requested, 8), indices valid, without dithering each pixel maps to an entry at minimal squared RGB distance from the composited pixel, find is minimal for every query, exact reproduction when the distinct colours fit and the image is not subsampled; a watchdog turns a stuck pruning loop into a violation.",
     "Compositing of transparent pixels uses the rasterize crate's blend_over (assumed); which of several tied entries wins is not judged; palettes smaller than necessary are allowed by the statement (measured and reported as a lead).",
     "DESIGN.md §C13")
@@ -183,7 +183,7 @@ CHECKS["C19"] = ("sweep (worker subprocesses)", "exploration",
     "complete round-trip lattices + deviation-bounded enumeration of JSON mutations in resource-limited worker subprocesses",
     "Round trips: 2.74 M faces (thorough: the full 48.2 M product of colours incl. alpha x attribute sets) through Display/FromStr and serde, every writable key x 256 modifier sets, chords up to length 3, sizes over {0,1,2,65535,usize::MAX}^2, all crops of images up to 3x3 and 1x1000, hand-built 1/3/4-channel inputs. "
     "Hostile documents: 12 valid seed documents (Image, Glyph, Text, view trees using every view type) with EVERY single mutation (5 615) in quick and EVERY pair of mutations (2.6 M) in thorough from a 20-value replacement alphabet (null, numbers up to 2^64-1 and 1e308, empty / deep arrays, an ill-typed leaf under 12 and 120 nested arrays, a repeated size key with another value, padding inside the base64 text, image documents in every key order, wrapped sizes, broken base64, every view type name, 100- and 1000-deep nests) plus key deletion, duplication and swaps, "
-    "each through the JSON text route and the Value route, in worker subprocesses with an 8 MiB stack, a 3 GiB address-space limit and an 8 s stall timeout. Oracle: deserialisation returns (no panic, abort, stack overflow, stall); every view tree that deserialises is laid out under 6 constraints and rendered into a sentinel-bordered canvas without panicking; accepted and rejected counts must both be non-zero per deserialiser.",
+    "each through the JSON text route and the Value route, in worker subprocesses with an 8 MiB stack, a 3 GiB address-space limit and an 8 s stall timeout. Oracle: deserialisation returns (no panic, abort, stack overflow, stall); every view tree that deserialises is laid out under 6 constraints (and under two constraints in five contexts built from terminals that report no, partial or tiny pixel sizes) and rendered into a sentinel-bordered canvas without panicking; accepted and rejected counts must both be non-zero per deserialiser.",
     "Documents larger than the seeds and mutation sets larger than pairs are not enumerated; serde_json's own recursion limit is trusted.",
     "DESIGN.md §C19")
 
